@@ -8,7 +8,12 @@
                               built in that function (a slice or map field
                               counts only if the function re-created it on the copy)
      ClonedLevel              a level cloned by CloneLinkerGraph / parseFile
-     Shared                   the write lands in storage the cached AST still references
+     Shared                   the write lands in storage the cached AST still references;
+                              this includes append(s, ...) and copy(s, ...) where s is (derived
+                              from) AST storage - directly, or held in a field of a local struct
+                              that is given AST storage somewhere in the function - unless the
+                              function re-created s first (make, append to a fresh or clipped
+                              slice); what a conditional branch re-creates counts only inside it
    (V.gen.AstWritesGen).  The obligation: the Shared sites are exactly the
    allow-list below, each entry with the argument why it is harmless.  A new
    write into a cached object - e.g. dropping the re-creation of
@@ -35,17 +40,53 @@ Definition ast_write_allowlist : list (string * string * nat) :=
        write happens only when it is true; the mode of a context never changes.
        (The exported names themselves live in AST.NamedExports, computed by the parser.) *)
     ("*linkerContext.convertStmtsForChunk", "s.Items[i].Alias", 1%nat);
+    (* prev is a copy of wipOrder[prevIndex]; its layers slice may be
+       AST.LayersPreImport / LayersPostImport of a (cached, possibly shared by
+       several entries) css_ast.AST.  The append is safe because of the didClone
+       protocol: the first time an index is merged into, prev.layers is replaced
+       by append([][]string{}, prev.layers...) (the conditional re-creation the
+       inventory notes), the result is stored back into wipOrder[prevIndex], and
+       later merges into the same index start from that private slice
+       (didClone == prevIndex).  Removing the re-creation (seeded change C08-3)
+       turns this into a different site and breaks the theorem. *)
+    ("*linkerContext.findImportedFilesInCSSOrder",
+     "wipOrder[prevIndex].layers = append(prev.layers, entry.layers...) {after a conditional re-creation of prev.layers}", 1%nat);
     (* lazyValue is a local js_ast.Expr (a struct value copied out of the
        SLazyExport node); the assignment changes the local, and the part's
        statements are then replaced by fresh ones (ClonedLevel sites
        repr.AST.Parts[partIndex].Stmts).  Syntactically indistinguishable from a
        pointer-typed field, hence listed. *)
     ("*linkerContext.generateCodeForLazyExport", "lazyValue.Data", 1%nat);
+    (* reExports starts as the parameter reExportsIn, which the only external
+       caller passes as nil (scanImportsAndExports: matchImportWithExport(..., nil))
+       and the recursion passes on; it only ever holds dependencies computed in
+       this link and ends up in ImportData (JSReprMeta), never in an AST *)
+    ("*linkerContext.matchImportWithExport",
+     "reExports = append(reExports, js_ast.Dependency{ SourceIndex: tracker.sourceIndex, PartIndex: resolvedPartIndex, })", 1%nat);
+    (* The next four extend a slice whose header was copied out of the cached
+       AST (NamedImport value of the cloned NamedImports map; element of the
+       cloned Parts slice) and store the result in the link's own copy.  If the
+       cached backing array has spare capacity the new elements are written into
+       it, beyond the length every cached header has: the cached AST never reads
+       them, each file has one clone per link, and the links of one context
+       never overlap (internalContext.rebuild hands out the active build), so a
+       later link can only overwrite what an earlier, finished link appended.
+       The rebuild-vs-fresh histories exercise exactly this. *)
+    ("*linkerContext.scanImportsAndExports",
+     "namedImport.LocalPartsWithUses = append(namedImport.LocalPartsWithUses, uint32(partIndex))", 1%nat);
+    ("*linkerContext.scanImportsAndExports", "part.Dependencies = append(part.Dependencies, importData.ReExports...)", 1%nat);
+    ("*linkerContext.scanImportsAndExports",
+     "part.Dependencies = append(part.Dependencies, js_ast.Dependency{ SourceIndex: importData.SourceIndex, PartIndex: resolvedPartIndex, })", 1%nat);
+    ("*linkerContext.scanImportsAndExports",
+     "part.Dependencies = append(part.Dependencies, js_ast.Dependency{ SourceIndex: sourceIndex, PartIndex: otherPartIndex, })", 1%nat);
     (* before is reached by pointer from stmts[end-1].Data, but this branch runs
        only when didMergeWithPreviousLocal is true, which is set together with
-       "clone := *before; ...; stmts[end-1].Data = &clone" in the same call:
-       before is that clone, whose Decls slice was created by make *)
+       "clone := *before; clone.Decls = make(...); ...; stmts[end-1].Data = &clone"
+       in the same call: before is that clone, whose Decls slice was created by
+       make with room for exactly the first merge, so the append reallocates or
+       extends a private array *)
     ("mergeAdjacentLocalStmts", "before.Decls", 1%nat);
+    ("mergeAdjacentLocalStmts", "before.Decls = append(before.Decls, after.Decls...)", 1%nat);
     (* stmts is the statement list assembled for the chunk by
        generateCodeForFileInChunkJS (stmtList.insideWrapperPrefix/Suffix, built
        by convertStmtsForChunk with append onto fresh slices), never a Part's
